@@ -31,5 +31,7 @@ for pid in props:
         })
     else:
         m["not_applicable"].append({"property_id": pid, "reason": static["not_applicable"].get(pid, "check not built yet in this session (planned in DESIGN.md section 9); not claimed until it runs end-to-end")})
+for e in m["engines"]:
+    e["serves_properties"] = [c["property_id"] for c in m["checks"] if c["engine"] == e["name"]]
 json.dump(m, open(os.path.join(here, "MANIFEST.json"), "w"), indent=1)
 print("MANIFEST.json: %d checks, %d not_applicable" % (len(m["checks"]), len(m["not_applicable"])))
